@@ -323,6 +323,15 @@ Theorem C13_filing_matches_source :
 Proof. exact filing_matches_source. Qed.
 Print Assumptions C13_filing_matches_source.
 
+(* on_smp_pairing_request_command_async / on_smp_pairing_response_command: the negotiated fields are
+   assigned, the method decided, the masks set, the expectations computed and phase 2 started in the
+   order the models assume (sc is negotiated before decide_pairing_method reads it) *)
+Theorem C13_handlers_match_source :
+  request_handler_source = request_handler_reading /\
+  response_handler_source = response_handler_reading.
+Proof. exact handlers_match_source. Qed.
+Print Assumptions C13_handlers_match_source.
+
 (* ---------------------------------------------------------------- the hypotheses are satisfiable *)
 Theorem C13_toolbox_satisfiable : toolbox_ok term_toolbox.
 Proof. exact term_toolbox_ok. Qed.
